@@ -319,9 +319,10 @@ def verifyRanges : List String := ["e.Signatures"]
 /- `e.Head == nil` and `schema.CheckNullElements(h)` (a signed header whose stamps or links hold a
    JSON null) guard states the model cannot be in: its envelope always has a header and a payload is a
    well-formed `Header`.  They answer "header mismatch" / "invalid signature payload" where the code
-   dereferenced nil before (/repo ce09676, f6bf443). -/
+   dereferenced nil before (/repo ce09676, f6bf443, d87a85b: the envelope's own header with null
+   entries; a8ec37f: a public key without key material is a key that matches nothing). -/
 def verifySignatureConds : List String :=
-  ["e.Head == nil", "len(keys) == 0", "err := sig.UnsafePayload(h); err != nil",
+  ["e.Head == nil || schema.CheckNullElements(e.Head) != nil", "len(keys) == 0", "err := sig.UnsafePayload(h); err != nil",
    "err := schema.CheckNullElements(h); err != nil", "!e.Head.Contains(h)",
    "err := sig.VerifyPayload(k, h); err != nil", "err := schema.CheckNullElements(h); err != nil",
    "e.Head.Contains(h)"]
@@ -343,7 +344,7 @@ def cliVerifyReturns : List String :=
    "wrapError(http.StatusUnprocessableEntity, err)",
    "wrapErrorf(http.StatusUnprocessableEntity, \"invalid signature payload\")",
    "wrapErrorf(http.StatusUnprocessableEntity, \"header mismatch\")", "nil"]
-def sigVerifyConds : List String := ["s == nil || s.jws == nil || key == nil", "err != nil"]
+def sigVerifyConds : List String := ["s == nil || s.jws == nil || key == nil || key.jwk == nil", "err != nil"]
 def sigUnsafeConds : List String := ["s == nil || s.jws == nil"]
 def sigUnmarshalConds : List String := ["err := json.Unmarshal(data, &str); err != nil", "len(str) == 0"]
 def sigUnmarshalReturns : List String :=
